@@ -94,7 +94,11 @@ pub(crate) mod verif_state {
                         done[i] = true;
                     }
                     Poll::Ready(None) => {
-                        oracle!(p, P13 | P11, closed && !newer, "C13 state broadcast: receive yielded None although the channel is open or a newer state exists");
+                        if closed {
+                            oracle!(p, P13 | P11, !newer, "C11+C13 state broadcast: receive yielded None on a closed channel although a newer state was accepted before the close");
+                        } else {
+                            oracle!(p, P13 | P11, false, "C13 state broadcast: receive yielded None although the channel is open");
+                        }
                         if got_some_after_close { bits |= W_CLOSED_LATEST; }
                         pending[i] = false;
                         done[i] = true;
@@ -147,7 +151,12 @@ pub(crate) mod verif_state {
                         core::mem::forget(t);
                     }
                     None => {
-                        oracle!(p, P13, !newer, "C13 state broadcast: try_receive yielded None although a newer state exists");
+                        if closed {
+                            // "receivers still get the state accepted before the close" is C11's clause as well
+                            oracle!(p, P13 | P11, !newer, "C11+C13 state broadcast: try_receive yielded None on a closed channel although a newer state was accepted before the close");
+                        } else {
+                            oracle!(p, P13, !newer, "C13 state broadcast: try_receive yielded None although a newer state exists");
+                        }
                     }
                 }
             }
@@ -178,9 +187,48 @@ pub(crate) mod verif_state {
         bits
     }
 
+    /// Thread-safe flavour under contention (CONTENDED: a try_lock on the channel lock would fail once, as if another
+    /// thread were inside the critical section; lock() just waits): a poll must still deliver a newer state or register,
+    /// so that the next send / close wakes it through its latest waker (also for wakers that differ only in the vtable).
+    pub fn contended_scenario<S: Src>(s: &mut S, p: u32) -> u32 {
+        let ch = Chan::<CheckLock>::new();
+        let pre = s.flag();
+        if pre { core::mem::forget(ch.send(Tag(1))); }
+        let c = DualCell::new();
+        let mut f = ManuallyDrop::new(ch.receive(StateId(0)));
+        let wa = ManuallyDrop::new(mk_waker_a(&c));
+        let wb = ManuallyDrop::new(mk_waker_b(&c));
+        if s.flag() { CONTENDED.store(1, core::sync::atomic::Ordering::Relaxed); }
+        let r = { let mut cx = Context::from_waker(&wa); unsafe { Pin::new_unchecked(&mut *f) }.poll(&mut cx) };
+        CONTENDED.store(0, core::sync::atomic::Ordering::Relaxed);
+        let mut bits = 0;
+        match r {
+            Poll::Ready(Some((sid, t))) => { oracle!(p, P13, pre && sid.0 == 1 && t.0 == 1, "C13 state broadcast: receive yielded something else than the latest state"); core::mem::forget(t); }
+            Poll::Ready(None) => { oracle!(p, P13, false, "C13 state broadcast: receive yielded None on an open channel"); }
+            Poll::Pending => {
+                oracle!(p, P13, !pre, "C13 state broadcast: receive stays pending although a newer state exists");
+                let second = s.flag();
+                if second {
+                    if s.flag() { CONTENDED.store(1, core::sync::atomic::Ordering::Relaxed); }
+                    let r = { let mut cx = Context::from_waker(&wb); unsafe { Pin::new_unchecked(&mut *f) }.poll(&mut cx) };
+                    CONTENDED.store(0, core::sync::atomic::Ordering::Relaxed);
+                    if let Poll::Ready(v) = r { core::mem::forget(v); oracle!(p, P13, false, "C13 state broadcast: receive completed without a newer state"); }
+                }
+                if s.flag() { core::mem::forget(ch.send(Tag(2))); } else { let _ = ch.close(); }
+                let latest = if second { c.b.get() } else { c.a.get() };
+                oracle!(p, P13, latest >= 1, "C13 state broadcast: a waiting receiver was not woken by the next send / close through its latest waker");
+                bits = 1;
+            }
+        }
+        core::mem::forget(ch);
+        s.reached(bits);
+        bits
+    }
+
     #[no_mangle]
     pub fn fi_verif_replay_state(name: &str, cfg: u32, p: u32, s: &mut ScriptSrc<'_>) -> bool {
         match name {
+            "state_contended" => { contended_scenario::<_>(s, p); }
             "state_hist_noop" => { hist::<NoopLock, _>(s, cfg, 64, p); }
             "state_hist_check" => { hist::<CheckLock, _>(s, cfg, 64, p); }
             _ => return false,
@@ -382,6 +430,9 @@ pub(crate) mod verif_state {
         use super::*;
         #[kani::proof]
         #[kani::unwind(3)]
+        fn contended_c13() { let b = contended_scenario(&mut KaniSrc, P13); kani::cover!(b == 1, "W state: waited, then woken"); }
+        #[kani::proof]
+        #[kani::unwind(4)]
         fn repoll_panics() {
             let ch = Chan::<NoopLock>::new();
             // both completion paths: Some((id, value)) after send, None after close (with or without a state)
